@@ -110,6 +110,20 @@ fn value_case(neg: bool, a: &[u64], grow: u64) -> Verdict {
     if t.sign() != Sign::NoSign || t != BigInt::zero() {
         return Err("set_zero left a non-NoSign or unequal zero".into());
     }
+    // clone_from onto objects with a different previous value (incl. a zero source over a non-zero target)
+    for prev in [BigInt::from(0), BigInt::from(-7), bi(!neg, &[1, 2, 3])] {
+        let mut t = prev.clone();
+        t.clone_from(&x);
+        ctx(eq_bi(&t, &r), "clone_from")?;
+        if t.sign() != want_sign || t.magnitude().is_zero() != r.is_zero() {
+            return Err("clone_from: sign()/magnitude() disagree with the cloned value".into());
+        }
+        let (ps, pm) = t.into_parts();
+        if ps != want_sign {
+            return Err("clone_from then into_parts: wrong sign".into());
+        }
+        ctx(eq_bu(&pm, &r.mag), "clone_from then into_parts magnitude")?;
+    }
     // Mul<Sign>-free rule of signs on the value: x * signum(x) = |x|
     ctx(must_return("x * signum", || &x * x.signum()).and_then(|v| eq_bi(&v, &r.abs())), "x * signum(x) = |x|")?;
     Ok(Info::new(!r.is_zero())
@@ -126,6 +140,17 @@ fn pair_case(sg: i128, a: &[u64]) -> Verdict {
     let mag = rn(a);
     let want = if s == Sign::NoSign { RefInt::zero() } else { RefInt::new(s == Sign::Minus, mag.clone()) };
     ctx(must_return("from_biguint", || BigInt::from_biguint(s, bu(a))).and_then(|v| eq_bi(&v, &want)), "BigInt::from_biguint")?;
+    // the same request through the u32-word constructors (digits may be all zero or carry redundant high zeros)
+    let words: Vec<u32> = a.iter().flat_map(|d| [*d as u32, (*d >> 32) as u32]).collect();
+    for (name, built) in [("BigInt::new", catch(|| BigInt::new(s, words.clone()))), ("BigInt::from_slice", catch(|| BigInt::from_slice(s, &words)))] {
+        let built = built.map_err(|p| format!("{} panicked: {}", name, p))?;
+        ctx(eq_bi(&built, &want), name)?;
+        let ws0 = sign_of(want.signum() as i128);
+        if built.sign() != ws0 || built.is_zero() != want.is_zero() || built.is_positive() != (want.signum() > 0) || built.is_negative() != (want.signum() < 0) {
+            return Err(format!("{}({:?}, {} words): sign()/is_zero()/is_positive()/is_negative() disagree with the value", name, s, words.len()));
+        }
+        ctx(eq_bi(&built.signum(), &RefInt::from_i128(want.signum() as i128)), &format!("{} signum", name))?;
+    }
     let v = BigInt::from_biguint(s, bu(a));
     let ws = sign_of(want.signum() as i128);
     if v.sign() != ws {
